@@ -586,7 +586,13 @@ where
         Err(TestError::Fail(_reason, value)) => {
             let (signature, detail) = match evaluate(oracle, &value, &infra) {
                 Verdict::Fail { signature, detail } | Verdict::Known { signature, detail, .. } => (signature, detail),
-                Verdict::Pass(_) => ("flaky".to_string(), "minimal input passes on re-evaluation".to_string()),
+                Verdict::Pass(_) => (
+                    "flaky".to_string(),
+                    format!(
+                        "minimal input passes on re-evaluation; first failure seen: {}",
+                        first_failure.borrow().as_ref().map(|(s, d)| format!("{s}: {}", truncate(d, 400))).unwrap_or_default()
+                    ),
+                ),
             };
             (stats, Some((value, signature, detail)), None)
         }
